@@ -12,6 +12,7 @@ driver on every outcome observed from the real code.
 import Restful.Lemmas.RouteSelected
 import Restful.Lemmas.CurlyMatch
 import Restful.Lemmas.ReadTemplate
+import Restful.Lemmas.JsrMatch
 namespace Restful
 namespace Props
 variable (E : ReEnv)
@@ -53,6 +54,37 @@ theorem C01_curly (cfg : Config) (hk : cfg.router = .curly) (hwf : cfg.wfTemplat
     refine ⟨⟨⟨⟨hm, ?_⟩, matchesContentType_sound rt _ hct⟩, matchesAccept_sound rt _ hacc⟩, hc⟩
     rw [hk]
     simp only [Spec.templateOf, hts, Spec.admittedSegments, hadm, if_true, Option.isSome_some]
+
+/-- RouterJSR311, on the template forms it documents (literals, `{v}`, `{v:regex}`, tail wildcard):
+    whatever is selected is admitted by its declaration. -/
+theorem C01_jsr (cfg : Config) (hk : cfg.router = .jsr) (hwf : cfg.wfTemplates = true) (req : Req) :
+    Spec.c01Holds E cfg req (route E cfg req) = true := by
+  unfold route routeTagged
+  rw [hk]
+  simp only
+  cases ho : (routeJsr E cfg req).1 with
+  | error c a => simp [Spec.c01Holds]
+  | panic w => simp [Spec.c01Holds]
+  | selected s r ps =>
+    obtain ⟨svc, hsvc, rt, hrt, hs, hr, ⟨wex, wc, final, rex, rc, f, hwex, hwm, hrex, hrm, hf, _⟩, hc, hm, hct, hacc⟩ :=
+      routeJsr_selected E ho
+    unfold Spec.c01Holds
+    simp only [List.any_eq_true, Bool.and_eq_true, beq_iff_eq]
+    refine ⟨svc, hsvc, hs, rt, hrt, hr, ?_⟩
+    have hwf' : (Spec.templateOf cfg.router rt).isSome = true := by
+      unfold Config.wfTemplates at hwf
+      simp only [List.all_eq_true] at hwf
+      exact hwf svc hsvc rt hrt
+    rw [hk] at hwf'
+    simp only [Spec.templateOf] at hwf'
+    obtain ⟨ts, hts⟩ := Option.isSome_iff_exists.mp hwf'
+    rw [Service.built_root svc hrt] at hts
+    obtain ⟨segs, hseg, _⟩ := Jsr.match_sound E svc.rootPath rt.relPath req.path ts hts wex rex hwex hrex wc rc final f hwm hrm hf
+    unfold Spec.admitsRequest
+    simp only [Bool.and_eq_true, beq_iff_eq]
+    refine ⟨⟨⟨⟨hm, ?_⟩, matchesContentType_sound rt _ hct⟩, matchesAccept_sound rt _ hacc⟩, hc⟩
+    rw [hk]
+    simp only [Spec.templateOf, Service.built_root svc hrt, hts, hseg, Option.isSome_some]
 
 /-- The route that filters and the handler see as selected (its declared `Path`) is the one whose
     function runs: the model hands `dispatch` the very route object `detectRoute` returned, so the
